@@ -38,7 +38,7 @@ PROPS = {
         kani=['kshim_byteorder_be', 'kshim_byteorder_write_be'],
     ),
     'C16': dict(
-        units=[('ubjson', r'(C16|write_utf8|write_map|to_utf8|to_val|to_key|read_map|lemma_)'), ('reader', r'(C16|^parse_metadata)'), ('ser', r'(C01\.file_layout)')],
+        units=[('ubjson', r'(C16|write_utf8|write_map|to_utf8|to_val|to_key|read_map|lemma_)'), ('reader', r'(C16|^parse_metadata|C07\.ok_only_after_closing_brace|C07\.no_eof_swallowed_before_tail)'), ('ser', r'(C01\.file_layout)')],
         kani=[],
     ),
     'C17': dict(
